@@ -232,7 +232,7 @@ def main() -> int:
         items.append(Item(f"rt{i}", params, pre, f"check({i}, {argt})",
                           describe={k: sh[k] for k in ("skeleton", "top") if k in sh} or {"shape": sh["expr"]}, family=sh["family"]))
     for i, sh in enumerate(SHAPES):
-        if not sh["holes"] or (quick and i % 3):
+        if not sh["holes"] or len(sh["holes"]) > 2 or (quick and i % 3):
             continue
         params, pre, names = gen.signature(sh["holes"])
         p2, pre2, n2 = gen.signature([(h[0], h[1] + len(sh["holes"])) + tuple(h[2:]) for h in sh["holes"]])
@@ -241,8 +241,8 @@ def main() -> int:
                           describe={"shape": sh["expr"]}, family="visitor-instance-reuse"))
     nrt = len(REUSE_TEXTS)
     for a0 in range(0, nrt, 2):
-        items.append(Item(f"reuse_texts_{a0}", "a: int, b: int, c: int", f"{a0} <= a < {a0 + 2} and 0 <= b < {nrt} and 0 <= c < {nrt}",
-                          "check_reuse_texts(a, b, c)", describe="visitor instance reused over three parsed filters",
+        items.append(Item(f"reuse_texts_{a0}", "a: int, b: int", f"{a0} <= a < {a0 + 2} and 0 <= b < {nrt}",
+                          f"check_reuse_texts(a, b, (a + 2 * b + 1) % {nrt})", describe="visitor instance reused over three parsed filters",
                           family="visitor-instance-reuse"))
     items.append(Item("leaf_string_render", "s: str", "len(s) <= 3", "check_string_render(s)",
                       describe="render(String(s)) in STRING language and decodes to s", family="leaf-lemma"))
